@@ -662,3 +662,57 @@ Proof.
            (names_sepb_ok g nt H1) (single_attachb_ok g c H2) (links_typedb_ok g c H3) (degrees_fitb_ok c H4)
            s0 (snd (attach nt s0)) p Hs0 Hne eq_refl (is_rtb_ok c _ Hrt) Hsp).
 Qed.
+
+(* ------------------------------------------------------------------ C06: a named direction is the port *)
+Lemma py_index_nonneg len k : 0 <= k < len -> py_index len k = Ok (Z.to_nat k).
+Proof. intros H. unfold py_index. destruct ((0 <=? k) && (k <? len)) eqn:E; [reflexivity|lia]. Qed.
+
+Section DirectedSlots.
+  Variables (d : desc) (g : graph) (rt : node) (rid : option idv) (r : crt).
+  Hypothesis Hcr : compile_router d g rt rid = Ok r.
+
+  (* a link that names a (non-negative) direction at this router sits on exactly that input / output port *)
+  Theorem dir_in_slot e k : In e (filter is_link (edges_to g (n_name rt))) -> e_dst_dir e = Some k -> 0 <= k ->
+    nth_error (cr_in r) (Z.to_nat k) = Some (Some (epair e)).
+  Proof.
+    intros He Hk Hk0. unfold compile_router in Hcr. cbv zeta in Hcr.
+    set (ins := filter is_link (edges_to g (n_name rt))) in *.
+    match type of Hcr with (if ?c then _ else _) = _ => destruct c; [discriminate|] end.
+    inv_bind Hcr.
+    destruct (fold_place_spec (fun e : Graph.edge => opt_default 0 (e_dst_dir e)) (fun e => (e_src e, e_dst e)) _ _ _ _ E) as (L1 & _ & K2 & _).
+    assert (Hin : In e (filter (fun e => is_some (e_dst_dir e)) ins)) by (apply filter_In; rewrite Hk; auto).
+    destruct (fold_place_index _ _ _ _ _ _ E e Hin) as (i & Hi).
+    assert (Hi' : i = Z.to_nat k).
+    { rewrite Hk in Hi. cbn [opt_default] in Hi. unfold py_index in Hi.
+      destruct ((0 <=? k) && (k <? _)) eqn:A; [inversion Hi; reflexivity|].
+      destruct ((k <? 0) && _) eqn:B; [lia|discriminate]. }
+    subst i.
+    assert (Hn : nth (Z.to_nat k) a None = Some (e_src e, e_dst e)) by (apply K2; exists e; auto).
+    apply nth_some_iff in Hn.
+    pose proof (fill_free_keeps a (map (fun e => (e_src e, e_dst e)) (filter (fun e => negb (is_some (e_dst_dir e))) ins)) _ _ Hn) as Hkeep.
+    destruct (fill_free a _) as [inc li]. destruct (fill_free a0 a1) as [out lo]. cbn [fst] in Hkeep.
+    destruct li; [|discriminate]. destruct lo; [|discriminate]. inversion Hcr; subst r; cbn [cr_in]. exact Hkeep.
+  Qed.
+
+  Theorem dir_out_slot e k : In e (filter is_link (edges_from g (n_name rt))) -> e_src_dir e = Some k -> 0 <= k ->
+    nth_error (cr_out r) (Z.to_nat k) = Some (Some (epair e)).
+  Proof.
+    intros He Hk Hk0. unfold compile_router in Hcr. cbv zeta in Hcr.
+    set (outs := filter is_link (edges_from g (n_name rt))) in *.
+    match type of Hcr with (if ?c then _ else _) = _ => destruct c; [discriminate|] end.
+    inv_bind Hcr.
+    destruct (fold_place_spec (fun e : Graph.edge => opt_default 0 (e_src_dir e)) (fun e => (e_src e, e_dst e)) _ _ _ _ E0) as (L1 & _ & K2 & _).
+    assert (Hin : In e (filter (fun e => is_some (e_src_dir e)) outs)) by (apply filter_In; rewrite Hk; auto).
+    destruct (fold_place_index _ _ _ _ _ _ E0 e Hin) as (i & Hi).
+    assert (Hi' : i = Z.to_nat k).
+    { rewrite Hk in Hi. cbn [opt_default] in Hi. unfold py_index in Hi.
+      destruct ((0 <=? k) && (k <? _)) eqn:A; [inversion Hi; reflexivity|].
+      destruct ((k <? 0) && _) eqn:B; [lia|discriminate]. }
+    subst i.
+    assert (Hn : nth (Z.to_nat k) a0 None = Some (e_src e, e_dst e)) by (apply K2; exists e; auto).
+    apply nth_some_iff in Hn.
+    pose proof (fill_free_keeps a0 a1 _ _ Hn) as Hkeep.
+    destruct (fill_free a _) as [inc li]. destruct (fill_free a0 a1) as [out lo]. cbn [fst] in Hkeep.
+    destruct li; [|discriminate]. destruct lo; [|discriminate]. inversion Hcr; subst r; cbn [cr_out]. exact Hkeep.
+  Qed.
+End DirectedSlots.
